@@ -45,3 +45,24 @@ chk("C06", "model_checking",
     _BW + "C06: 2 (thorough up to 4) simultaneous ConnectInOut calls plus unidirectional streams, each half parked separately, every admission order, "
     "cancellations and releases; oracle: the attached pair always belongs to one request (checked on state, on who receives the probe line and whose reader is drained).",
     _BWNOTE, "DESIGN.md 4, 5 C06")
+
+chk("C02", "model_checking",
+    "explicit-state BFS over the real broker under a controlled scheduler with write/flush fault injection at every point; exhaustive payload enumeration",
+    _BW + "C02: <=3 (thorough 4) operator lines entered before, between and during <=2-3 successive shells on all four writer kinds (plain, Flusher, FlushError, both), "
+    "a write or flush failure at every point, clients vanishing (including 'while the line is in the proxy's hands'), input closing; oracle on the writers' call logs: "
+    "each entry = line + one newline, flushed before the next, gap-free duplicate-free run across shells, nothing lost except a line whose own transmission failed.",
+    _BWNOTE + " The HTTP/1.1-over-TLS writer is represented by the FlushError kind (what net/http hands the handler); the TLS seam itself is not part of this check.",
+    "DESIGN.md 4, 5 C02")
+chk("C03", "model_checking",
+    "explicit-state BFS over the real broker: every sequence of read results x every terminal speed (unbuffered, one-slot, roomy operator channel)",
+    _BW + "C03: every sequence of <=3 (thorough 4-5) read results over {data, zero-length, data+EOF/unexpected EOF/error, bare EOF/closed pipe/error, sizes 1/2047/2048/2049/5000}, "
+    "operator channel of capacity 0, 1 and 1024 consumed at every relative speed, cancellation at every point (also simultaneously with a read returning); oracle: what is shown is "
+    "always a prefix of what was sent, complete and in front of the close notice when the stream ended by itself.",
+    _BWNOTE, "DESIGN.md 4, 5 C03")
+chk("C11", "model_checking",
+    "explicit-state BFS over the real broker with a capturing slog handler and a real slog JSON handler; exhaustive payload enumeration",
+    _BW + "C11: histories of accepted, refused (every reason) and ended streams with lines delivered/failed and chunks shown/dropped; oracle per step: Shell I/O records in bijection and order "
+    "with delivered lines and displayed chunks (also with an unbuffered operator channel), one connect and one disconnect record per accepted stream, one error-level record naming the reason "
+    "per refusal; every record also goes through slog's JSON handler and must come out as one parsable line carrying the JSON image of the data (all strings of <=2 (thorough 3) JSON-hostile symbols).",
+    _BWNOTE + " The -log file of the real binary is the same handler writing to a file; the file itself is not exercised here.",
+    "DESIGN.md 4, 5 C11")
